@@ -767,6 +767,8 @@ dt_io_strpdtdur(struct __strpdtdur_st_s *st, const char *str)
 out:
 	if (((st->cont = ep) && *ep == '\0') || (sp == ep)) {
 		st->sign = 0;
+		/* the co-class prefix belongs to this string only */
+		st->flags = 0U;
 		st->cont = NULL;
 	}
 	return res;
